@@ -1,6 +1,11 @@
-//! Boot-information domains: mbiwalk, mbinull, iters (and, later, the full dump).
-use crate::{guard, hexs, Arg, Ctx, Guarded};
-use multiboot2::{BootInformation, BootInformationHeader, LoadError, TagHeader};
+//! Boot-information domains: mbi (the full dump), mbiwalk, mbinull, iters.
+use crate::{guard, hexs, res_str, Arg, Ctx, Guarded};
+use multiboot2::{
+    ApmTag, BasicMemoryInfoTag, BootInformation, BootInformationHeader, BootLoaderNameTag, BootdevTag,
+    CommandLineTag, EFIImageHandle32Tag, EFIImageHandle64Tag, EFIMemoryMapTag, EFISdt32Tag, EFISdt64Tag,
+    ElfSectionsTag, FramebufferTag, FramebufferType, ImageLoadPhysAddrTag, LoadError, MemoryMapTag, ModuleTag,
+    NetworkTag, RsdpV1Tag, RsdpV2Tag, SmbiosTag, StringError, TagHeader, VBEInfoTag, VBEModeInfo,
+};
 use multiboot2_common::{DynSizedStructure, MaybeDynSized};
 
 pub type Generic = DynSizedStructure<TagHeader>;
@@ -89,8 +94,501 @@ pub fn modules(ctx: &mut Ctx, g: &Guarded, bi: &BootInformation) {
     }
 }
 
+// ---- the full dump (domain `mbi`) ---------------------------------------------
+
+/// "VAL <x>" or "PANIC"
+fn gv<T: core::fmt::Display>(f: impl FnOnce() -> T) -> String {
+    res_str(guard(|| format!("VAL {}", f())))
+}
+
+/// Result<&str, StringError>
+fn s_str(g: &Guarded, r: Result<Result<&str, StringError>, ()>) -> String {
+    match r {
+        Err(()) => "PANIC".to_string(),
+        Ok(Ok(s)) => format!("VAL {} {}", view(g, s), hexs(s.as_bytes())),
+        Ok(Err(StringError::MissingNul(_))) => "ERR MissingNul".to_string(),
+        Ok(Err(StringError::Utf8(_))) => "ERR Utf8".to_string(),
+    }
+}
+
+/// Result<&str, Utf8Error> of a fixed array field
+fn s_arr_str(r: Result<Result<&str, core::str::Utf8Error>, ()>) -> String {
+    match r {
+        Err(()) => "PANIC".to_string(),
+        Ok(Ok(s)) => format!("VAL {}", hexs(s.as_bytes())),
+        Ok(Err(_)) => "ERR Utf8".to_string(),
+    }
+}
+
+fn k_module(ctx: &mut Ctx, g: &Guarded, t: &ModuleTag) {
+    ctx.ln(
+        "modinfo",
+        format!(
+            "mod_start={} mod_end={} size={} cmdline={}",
+            t.start_address(),
+            t.end_address(),
+            t.module_size(),
+            s_str(g, guard(|| t.cmdline()))
+        ),
+    );
+}
+
+fn k_apm(ctx: &mut Ctx, t: &ApmTag) {
+    ctx.ln(
+        "apm",
+        format!(
+            "version={} cseg={} offset={} cset_16={} dseg={} flags={} cseg_len={} cseg_16_len={} dseg_len={}",
+            t.version(),
+            t.cseg(),
+            t.offset(),
+            t.cset_16(),
+            t.dseg(),
+            t.flags(),
+            t.cseg_len(),
+            t.cseg_16_len(),
+            t.dseg_len()
+        ),
+    );
+}
+
+fn k_basic_meminfo(ctx: &mut Ctx, t: &BasicMemoryInfoTag) {
+    ctx.ln("basic_meminfo", format!("memory_lower={} memory_upper={}", t.memory_lower(), t.memory_upper()));
+}
+
+fn k_bootloader(ctx: &mut Ctx, g: &Guarded, t: &BootLoaderNameTag) {
+    ctx.ln("bootloader", format!("typ={:?} size={} name={}", t.typ(), t.size(), s_str(g, guard(|| t.name()))));
+}
+
+fn k_bootdev(ctx: &mut Ctx, t: &BootdevTag) {
+    ctx.ln("bootdev", format!("biosdev={} slice={} part={}", t.biosdev(), t.slice(), t.part()));
+}
+
+fn k_cmdline(ctx: &mut Ctx, g: &Guarded, t: &CommandLineTag) {
+    ctx.ln("cmdline", s_str(g, guard(|| t.cmdline())));
+}
+
+fn k_efi_ih32(ctx: &mut Ctx, t: &EFIImageHandle32Tag) {
+    ctx.ln("efi_ih32", format!("pointer={}", t.image_handle()));
+}
+
+fn k_efi_ih64(ctx: &mut Ctx, t: &EFIImageHandle64Tag) {
+    ctx.ln("efi_ih64", format!("pointer={}", t.image_handle()));
+}
+
+fn k_efi_sdt32(ctx: &mut Ctx, t: &EFISdt32Tag) {
+    ctx.ln("efi_sdt32", format!("pointer={}", t.sdt_address()));
+}
+
+fn k_efi_sdt64(ctx: &mut Ctx, t: &EFISdt64Tag) {
+    ctx.ln("efi_sdt64", format!("pointer={}", t.sdt_address()));
+}
+
+fn k_efi_mmap(ctx: &mut Ctx, g: &Guarded, t: &EFIMemoryMapTag) {
+    let mut it = match guard(|| t.memory_areas()) {
+        Err(()) => {
+            ctx.ln("efi_mmap", "areas=PANIC");
+            return;
+        }
+        Ok(it) => it,
+    };
+    ctx.ln("efi_mmap", format!("areas=VAL entries={} len={}", it.len(), gv(|| it.len())));
+    loop {
+        match guard(|| it.next()) {
+            Ok(Some(d)) => ctx.ln(
+                "efi_desc",
+                format!(
+                    "{} ty={} phys={} virt={} pages={} att={} len={}",
+                    view(g, d),
+                    d.ty.0,
+                    d.phys_start,
+                    d.virt_start,
+                    d.page_count,
+                    d.att.bits(),
+                    gv(|| it.len())
+                ),
+            ),
+            Ok(None) => {
+                ctx.ln("efi_end", format!("VAL len={}", gv(|| it.len())));
+                break;
+            }
+            Err(()) => {
+                ctx.ln("efi_end", "PANIC");
+                break;
+            }
+        }
+    }
+}
+
+fn k_elf(ctx: &mut Ctx, g: &Guarded, t: &ElfSectionsTag) {
+    let head =
+        format!("number_of_sections={} entry_size={} shndx={}", t.number_of_sections(), t.entry_size(), t.shndx());
+    let mut it = match guard(|| t.sections()) {
+        Err(()) => {
+            ctx.ln("elf", format!("{} sections=PANIC", head));
+            return;
+        }
+        Ok(it) => it,
+    };
+    ctx.ln("elf", format!("{} sections=VAL rem={}", head, it.len()));
+    // `inner` is not public: the k-th entry of the table is at tag + 20 + k * entry_size,
+    // k = entries consumed before this one
+    let total = it.len();
+    let table = g.off(t as *const ElfSectionsTag) + 20;
+    let es = t.entry_size() as isize;
+    loop {
+        match guard(|| it.next()) {
+            Ok(Some(s)) => {
+                let rem = it.len();
+                let k = (total - rem - 1) as isize;
+                ctx.ln(
+                    "elf_section",
+                    format!(
+                        "{} typ={} raw={} flags={} start={} end={} size={} align={} alloc={} rem={}",
+                        table + k * es,
+                        res_str(guard(|| format!("VAL {:?}", s.section_type()))),
+                        gv(|| s.section_type_raw()),
+                        gv(|| s.flags().bits()),
+                        gv(|| s.start_address()),
+                        gv(|| s.end_address()),
+                        gv(|| s.size()),
+                        gv(|| s.addralign()),
+                        gv(|| s.is_allocated()),
+                        rem
+                    ),
+                );
+            }
+            Ok(None) => {
+                ctx.ln("elf_end", format!("VAL rem={}", it.len()));
+                break;
+            }
+            Err(()) => {
+                ctx.ln("elf_end", "PANIC");
+                break;
+            }
+        }
+    }
+}
+
+fn unknown_fb(e: impl core::fmt::Display) -> String {
+    let s = format!("{}", e);
+    format!("ERR UnknownFb({})", s.rsplit(' ').next().unwrap())
+}
+
+fn k_framebuffer(ctx: &mut Ctx, g: &Guarded, t: &FramebufferTag) {
+    let ty = match guard(|| t.buffer_type()) {
+        Err(()) => "PANIC".to_string(),
+        Ok(Ok(FramebufferType::Indexed { palette })) => {
+            let bytes = unsafe { core::slice::from_raw_parts(palette.as_ptr().cast::<u8>(), palette.len() * 3) };
+            format!("VAL Indexed n={} {} {}", palette.len(), view(g, palette), hexs(bytes))
+        }
+        Ok(Ok(FramebufferType::RGB { red, green, blue })) => format!(
+            "VAL RGB {},{},{},{},{},{}",
+            red.position, red.size, green.position, green.size, blue.position, blue.size
+        ),
+        Ok(Ok(FramebufferType::Text)) => "VAL Text".to_string(),
+        Ok(Err(e)) => unknown_fb(e),
+    };
+    ctx.ln(
+        "framebuffer",
+        format!(
+            "address={} pitch={} width={} height={} bpp={} type={}",
+            t.address(),
+            t.pitch(),
+            t.width(),
+            t.height(),
+            t.bpp(),
+            ty
+        ),
+    );
+}
+
+fn k_load_base_addr(ctx: &mut Ctx, t: &ImageLoadPhysAddrTag) {
+    ctx.ln("load_base_addr", format!("load_base_addr={}", t.load_base_addr()));
+}
+
+fn k_mmap(ctx: &mut Ctx, g: &Guarded, t: &MemoryMapTag) {
+    let a = guard(|| t.memory_areas());
+    ctx.ln(
+        "mmap",
+        format!(
+            "entry_size={} entry_version={} areas={}",
+            t.entry_size(),
+            t.entry_version(),
+            match a {
+                Ok(s) => format!("VAL {}", view(g, s)),
+                Err(()) => "PANIC".to_string(),
+            }
+        ),
+    );
+    if let Ok(s) = a {
+        for x in s {
+            ctx.ln(
+                "area",
+                format!(
+                    "{} base={} length={} typ={} end={}",
+                    view(g, x),
+                    x.start_address(),
+                    x.size(),
+                    u32::from(x.typ()),
+                    x.end_address()
+                ),
+            );
+        }
+    }
+}
+
+fn k_network(ctx: &mut Ctx, g: &Guarded, t: &NetworkTag) {
+    // no accessors: the extent of the unsized tail from the pointer metadata
+    let n: usize = ptr_meta::metadata(t as *const NetworkTag);
+    ctx.ln("network", format!("dhcpack=@{}+{}", g.off(t as *const NetworkTag) + 8, n));
+}
+
+fn k_rsdp_v1(ctx: &mut Ctx, t: &RsdpV1Tag) {
+    ctx.ln(
+        "rsdp_v1",
+        format!(
+            "signature={} valid={} oem_id={} revision={} rsdt_address={}",
+            s_arr_str(guard(|| t.signature())),
+            gv(|| t.checksum_is_valid()),
+            s_arr_str(guard(|| t.oem_id())),
+            t.revision(),
+            t.rsdt_address()
+        ),
+    );
+}
+
+fn k_rsdp_v2(ctx: &mut Ctx, t: &RsdpV2Tag) {
+    ctx.ln(
+        "rsdp_v2",
+        format!(
+            "signature={} valid={} oem_id={} revision={} xsdt_address={} ext_checksum={}",
+            s_arr_str(guard(|| t.signature())),
+            gv(|| t.checksum_is_valid()),
+            s_arr_str(guard(|| t.oem_id())),
+            t.revision(),
+            t.xsdt_address(),
+            t.ext_checksum()
+        ),
+    );
+}
+
+fn k_smbios(ctx: &mut Ctx, g: &Guarded, t: &SmbiosTag) {
+    let tb = t.tables();
+    ctx.ln("smbios", format!("major={} minor={} tables={} {}", t.major(), t.minor(), view(g, tb), hexs(tb)));
+}
+
+/// unaligned read of a (possibly nested) field of a packed struct behind a raw pointer
+macro_rules! rd {
+    ($p:expr, $($f:tt)+) => {
+        unsafe { core::ptr::addr_of!((*$p).$($f)+).read_unaligned() }
+    };
+}
+
+fn k_vbe(ctx: &mut Ctx, t: &VBEInfoTag) {
+    ctx.ln(
+        "vbe",
+        format!(
+            "mode={} interface_segment={} interface_offset={} interface_length={}",
+            t.mode(),
+            t.interface_segment(),
+            t.interface_offset(),
+            t.interface_length()
+        ),
+    );
+    let ci = t.control_info();
+    ctx.ln(
+        "vbe_ci",
+        format!(
+            "signature={} ci.version={} ci.oem_string_ptr={} ci.capabilities={} ci.mode_list_ptr={} \
+             ci.total_memory={} ci.oem_software_revision={} ci.oem_vendor_name_ptr={} \
+             ci.oem_product_name_ptr={} ci.oem_product_revision_ptr={}",
+            hexs(&{ ci.signature }),
+            { ci.version },
+            { ci.oem_string_ptr },
+            { ci.capabilities }.bits(),
+            { ci.mode_list_ptr },
+            { ci.total_memory },
+            { ci.oem_software_revision },
+            { ci.oem_vendor_name_ptr },
+            { ci.oem_product_name_ptr },
+            { ci.oem_product_revision_ptr }
+        ),
+    );
+    // `memory_model` is a Rust enum: with a raw byte > 7 neither the field nor a
+    // typed copy of the struct is read; the other fields are then read in place.
+    let tagp = t as *const VBEInfoTag as *const u8;
+    let mm_raw = unsafe { tagp.add(8 + 8 + 512 + 27).read() };
+    let copy;
+    let p: *const VBEModeInfo = if mm_raw <= 7 {
+        copy = t.mode_info();
+        &copy
+    } else {
+        unsafe { tagp.add(8 + 8 + 512).cast::<VBEModeInfo>() }
+    };
+    let mm = if mm_raw <= 7 { format!("VAL {}", rd!(p, memory_model) as u8) } else { "UB".to_string() };
+    ctx.ln(
+        "vbe_mi",
+        format!(
+            "mi.mode_attributes={} mi.window_a_attributes={} mi.window_b_attributes={} mi.window_granularity={} \
+             mi.window_size={} mi.window_a_segment={} mi.window_b_segment={} mi.window_function_ptr={} mi.pitch={} \
+             mi.resolution.0={} mi.resolution.1={} mi.character_size.0={} mi.character_size.1={} \
+             mi.number_of_planes={} mi.bpp={} mi.number_of_banks={} mi.bank_size={} mi.number_of_image_pages={} \
+             mi.red_field.size={} mi.red_field.position={} mi.green_field.size={} mi.green_field.position={} \
+             mi.blue_field.size={} mi.blue_field.position={} mi.reserved_field.size={} \
+             mi.reserved_field.position={} mi.direct_color_attributes={} mi.framebuffer_base_ptr={} \
+             mi.offscreen_memory_offset={} mi.offscreen_memory_size={} memory_model={}",
+            rd!(p, mode_attributes).bits(),
+            rd!(p, window_a_attributes).bits(),
+            rd!(p, window_b_attributes).bits(),
+            rd!(p, window_granularity),
+            rd!(p, window_size),
+            rd!(p, window_a_segment),
+            rd!(p, window_b_segment),
+            rd!(p, window_function_ptr),
+            rd!(p, pitch),
+            rd!(p, resolution.0),
+            rd!(p, resolution.1),
+            rd!(p, character_size.0),
+            rd!(p, character_size.1),
+            rd!(p, number_of_planes),
+            rd!(p, bpp),
+            rd!(p, number_of_banks),
+            rd!(p, bank_size),
+            rd!(p, number_of_image_pages),
+            rd!(p, red_field.size),
+            rd!(p, red_field.position),
+            rd!(p, green_field.size),
+            rd!(p, green_field.position),
+            rd!(p, blue_field.size),
+            rd!(p, blue_field.position),
+            rd!(p, reserved_field.size),
+            rd!(p, reserved_field.position),
+            rd!(p, direct_color_attributes).bits(),
+            rd!(p, framebuffer_base_ptr),
+            rd!(p, offscreen_memory_offset),
+            rd!(p, offscreen_memory_size),
+            mm
+        ),
+    );
+}
+
+/// module iterator run to the end, each module with its accessors
+pub fn modules_full(ctx: &mut Ctx, g: &Guarded, bi: &BootInformation) {
+    let mut it = bi.module_tags();
+    loop {
+        match guard(|| it.next()) {
+            Ok(Some(t)) => {
+                ctx.ln("module", view(g, t));
+                k_module(ctx, g, t);
+            }
+            Ok(None) => {
+                ctx.ln("modules", "VAL END");
+                break;
+            }
+            Err(()) => {
+                ctx.ln("modules", "PANIC");
+                break;
+            }
+        }
+    }
+}
+
+/// Prints the `get` line of a typed getter; the tag if there is one.
+fn got<'a, T: ?Sized>(ctx: &mut Ctx, g: &Guarded, name: &str, r: Result<Option<&'a T>, ()>) -> Option<&'a T> {
+    match r {
+        Err(()) => {
+            ctx.ln("get", format!("{} PANIC", name));
+            None
+        }
+        Ok(None) => {
+            ctx.ln("get", format!("{} none", name));
+            None
+        }
+        Ok(Some(t)) => {
+            ctx.ln("get", format!("{} some {}", name, view(g, t)));
+            Some(t)
+        }
+    }
+}
+
+/// every typed getter (alphabetical order of the getters), each followed by the accessors of its tag
+pub fn getters(ctx: &mut Ctx, g: &Guarded, bi: &BootInformation) {
+    if let Some(t) = got(ctx, g, "apm", guard(|| bi.apm_tag())) {
+        k_apm(ctx, t);
+    }
+    if let Some(t) = got(ctx, g, "basic_memory_info", guard(|| bi.basic_memory_info_tag())) {
+        k_basic_meminfo(ctx, t);
+    }
+    if let Some(t) = got(ctx, g, "boot_loader_name", guard(|| bi.boot_loader_name_tag())) {
+        k_bootloader(ctx, g, t);
+    }
+    if let Some(t) = got(ctx, g, "bootdev", guard(|| bi.bootdev_tag())) {
+        k_bootdev(ctx, t);
+    }
+    if let Some(t) = got(ctx, g, "command_line", guard(|| bi.command_line_tag())) {
+        k_cmdline(ctx, g, t);
+    }
+    got(ctx, g, "efi_bs_not_exited", guard(|| bi.efi_bs_not_exited_tag()));
+    if let Some(t) = got(ctx, g, "efi_ih32", guard(|| bi.efi_ih32_tag())) {
+        k_efi_ih32(ctx, t);
+    }
+    if let Some(t) = got(ctx, g, "efi_ih64", guard(|| bi.efi_ih64_tag())) {
+        k_efi_ih64(ctx, t);
+    }
+    if let Some(t) = got(ctx, g, "efi_memory_map", guard(|| bi.efi_memory_map_tag())) {
+        k_efi_mmap(ctx, g, t);
+    }
+    if let Some(t) = got(ctx, g, "efi_sdt32", guard(|| bi.efi_sdt32_tag())) {
+        k_efi_sdt32(ctx, t);
+    }
+    if let Some(t) = got(ctx, g, "efi_sdt64", guard(|| bi.efi_sdt64_tag())) {
+        k_efi_sdt64(ctx, t);
+    }
+    if let Some(t) = got(ctx, g, "elf_sections", guard(|| bi.elf_sections_tag())) {
+        k_elf(ctx, g, t);
+    }
+    match guard(|| bi.framebuffer_tag()) {
+        Err(()) => ctx.ln("get", "framebuffer PANIC"),
+        Ok(None) => ctx.ln("get", "framebuffer none"),
+        Ok(Some(Ok(t))) => {
+            ctx.ln("get", format!("framebuffer some {}", view(g, t)));
+            k_framebuffer(ctx, g, t);
+        }
+        Ok(Some(Err(e))) => ctx.ln("get", format!("framebuffer some {}", unknown_fb(e))),
+    }
+    if let Some(t) = got(ctx, g, "load_base_addr", guard(|| bi.load_base_addr_tag())) {
+        k_load_base_addr(ctx, t);
+    }
+    if let Some(t) = got(ctx, g, "memory_map", guard(|| bi.memory_map_tag())) {
+        k_mmap(ctx, g, t);
+    }
+    if let Some(t) = got(ctx, g, "network", guard(|| bi.network_tag())) {
+        k_network(ctx, g, t);
+    }
+    if let Some(t) = got(ctx, g, "rsdp_v1", guard(|| bi.rsdp_v1_tag())) {
+        k_rsdp_v1(ctx, t);
+    }
+    if let Some(t) = got(ctx, g, "rsdp_v2", guard(|| bi.rsdp_v2_tag())) {
+        k_rsdp_v2(ctx, t);
+    }
+    if let Some(t) = got(ctx, g, "smbios", guard(|| bi.smbios_tag())) {
+        k_smbios(ctx, g, t);
+    }
+    if let Some(t) = got(ctx, g, "vbe_info", guard(|| bi.vbe_info_tag())) {
+        k_vbe(ctx, t);
+    }
+}
+
 pub fn run(ctx: &mut Ctx, dom: &str, a: &[Arg]) {
     match dom {
+        "mbi" => {
+            let g = Guarded::new(a[0].b(), 0, ctx.place_end);
+            if let Some(bi) = load(ctx, &g) {
+                walk(ctx, &g, &bi);
+                modules_full(ctx, &g, &bi);
+                getters(ctx, &g, &bi);
+            }
+        }
         "mbinull" => {
             let r = guard(|| unsafe { BootInformation::load(core::ptr::null()) });
             ctx.ln(
